@@ -11,7 +11,7 @@ out = ["<!-- seeded-table:begin -->",
        "| id | property | the change | what it needs to manifest | caught by (first oracle; violating runs in the quick tier) | history |",
        "|---|---|---|---|---|---|"]
 for m in rows:
-    caught = "%s; %s of %s runs" % (m.get("first_oracle"), m.get("violating_runs"), m.get("runs")) if m.get("caught") else "**MISSED**"
+    caught = "%s; %s of %s runs" % (m.get("first_oracle"), m.get("violating_runs"), m.get("runs")) if m.get("caught") else "**not caught** (see history)"
     out.append("| %s | %s | %s | %s | %s | %s |" % (m["id"], m["property"], m["what"].replace("|", "/"), m["needs_to_manifest"].replace("|", "/"), caught, m["history"].replace("|", "/")))
 n_caught = sum(1 for m in rows if m.get("caught"))
 out.append("")
